@@ -80,7 +80,7 @@ def conditions(tier):
     for sh, mask in shapes:
         conds.append({"name": f"process/{sh}-{''.join(map(str, mask))}", "func": "capacity", "shard": {"shape": sh, "K": K, "token": mask}, "timeout": tmo})
     # two tokens: a job needing both can take one and fail on the other
-    two = [("indep2", [1, 1], [1, 0]), ("indep2", [1, 1], [1, 1]), ("indep3", [1, 1, 0], [1, 0, 1])] if tier == "quick" else [("indep2", [1, 1], [1, 0]), ("indep2", [1, 1], [1, 1]), ("indep3", [1, 1, 0], [1, 0, 1]), ("indep3", [1, 1, 1], [1, 1, 1]), ("chain3", [1, 1, 1], [0, 1, 1])]
+    two = [("indep2", [1, 1], [1, 0]), ("indep2", [1, 1], [1, 1])] if tier == "quick" else [("indep2", [1, 1], [1, 0]), ("indep2", [1, 1], [1, 1]), ("indep3", [1, 1, 0], [1, 0, 1]), ("indep3", [1, 1, 1], [1, 1, 1]), ("chain3", [1, 1, 1], [0, 1, 1])]
     for sh, m1, m2 in two:
         conds.append({"name": f"two-tokens/{sh}-{''.join(map(str, m1))}-{''.join(map(str, m2))}", "func": "capacity", "shard": {"shape": sh, "K": K, "token": m1, "token2": m2}, "timeout": tmo})
     for total, reqs in _filecombos(2, 3 if tier == "thorough" else 2) + ([] if tier == "quick" else []):
@@ -92,7 +92,7 @@ def conditions(tier):
     out = []
     for c in conds:
         if c["shard"].get("token2"):
-            out.extend(schedlib.with_prefixes(c, 3 if tier == "quick" else 4))
+            out.extend(schedlib.with_prefixes(c, 2 if tier == "quick" else 4))
         elif c["shard"].get("shape") in heavy and c["shard"].get("token_kind") != "file":
             out.extend(schedlib.with_prefixes(c, 2 if tier == "quick" else 3))
         else:
